@@ -404,3 +404,22 @@ func sIntLit(n int64) string {
 	}
 	return fmt.Sprint(n)
 }
+
+// undeclareFrom drops every declaration made since index n (used when a scratch evaluation is abandoned).
+func (w *World) undeclareFrom(n int) {
+	for _, d := range w.decls[n:] {
+		fs := strings.Fields(strings.TrimLeft(d, "("))
+		if len(fs) >= 2 {
+			name := fs[1]
+			if strings.HasPrefix(name, "|") {
+				// quoted symbol may contain spaces: take up to the closing bar
+				rest := d[strings.Index(d, "|"):]
+				if e := strings.Index(rest[1:], "|"); e >= 0 {
+					name = rest[:e+2]
+				}
+			}
+			delete(w.declared, name)
+		}
+	}
+	w.decls = w.decls[:n]
+}
